@@ -111,12 +111,21 @@ def _small_y_point(y0):
 def o_wif(case):
     net = NETS[case["net"]]
     d, comp = case["d"], case["compressed"]
+    run = None
+    if case.get("run"):
+        # an exponent chosen so that the WIF text has a run of one digit at an aligned group of positions
+        from gen.common import b58_digit_run_data
+        pfx = _wif_prefix_of_d1(case["net"])
+        data = b58_digit_run_data(pfx, 32, b"\x01" if comp else b"", *case["run"])
+        if data is not None and 1 <= int.from_bytes(data[len(pfx):len(pfx) + 32], "big") < N:
+            d = int.from_bytes(data[len(pfx):len(pfx) + 32], "big")
+            run = case["run"]
     key = net.keys.private(d, is_compressed=comp)
     pt = _pub(d)
     if tuple(key.public_pair()) != pt:
         _bad("key:public-pair!=d*G", "keys.private(%#x).public_pair() differs from the reference d*G" % d)
     labels = ["net-has-published-prefix" if case["net"] in PUBLISHED_PREFIXES else "net-structure-only", _d_class(d),
-              "compressed" if comp else "uncompressed"]
+              "compressed" if comp else "uncompressed"] + (["wif-digit-run:width=%d" % run[0]] if run else [])
     for flag in (comp, not comp):
         wif = key.wif() if flag == comp else key.wif(is_compressed=flag)
         payload = refenc.b58check_decode(wif)
@@ -175,8 +184,16 @@ def cases_wif_all_networks(tier):
                 yield {"net": code, "d": d, "compressed": not bool(i % 2)}
 
 
+def b58_runs():
+    """(width, group index, digit value, seed) of a run of equal Base58 digits at aligned positions of a checksummed text"""
+    return st.tuples(st.sampled_from([10, 10, 10, 8, 9, 11, 12, 4, 5, 16]), st.integers(0, 3), st.sampled_from([0, 0, 0, 57, 1, 33]),
+                     st.integers(0, 10**6)).map(list)
+
+
 def s_wif():
-    return st.fixed_dictionaries({"net": st.sampled_from(NET_CODES), "d": scalars(), "compressed": st.booleans()})
+    from gen.common import weighted
+    return st.fixed_dictionaries({"net": st.sampled_from(NET_CODES), "d": scalars(), "compressed": st.booleans(),
+                                  "run": weighted((7, st.none()), (1, b58_runs()))})
 
 
 # ------------------------------------------------------------------ (b) SEC round trip
